@@ -31,6 +31,9 @@ type c08Result struct {
 
 // labelFamily: the input family of a label ("mutant:swap@12" -> "mutant").
 func labelFamily(l string) string {
+	if rest, ok := strings.CutPrefix(l, "scaling:"); ok {
+		return "scaling:" + rest // the scaling family by name
+	}
 	if i := strings.IndexAny(l, ":@ ("); i > 0 {
 		return l[:i]
 	}
@@ -299,6 +302,13 @@ func loadRepoCorpus(repo string) []string {
 	return out
 }
 
+var c08FixedPrograms = []string{
+	// a wildcard return in a pipeline without output parameters, the call to it disabled at run time
+	"stage DISABLER(\n    out bool disable,\n    src comp \"nope\",\n)\n\npipeline P1(\n    out bool disable,\n)\n{\n    call DISABLER()\n\n    return (\n        * = DISABLER,\n    )\n}\n\n" +
+		"pipeline P2(\n    in  bool disable,\n)\n{\n    call DISABLER() using (\n        disabled = self.disable,\n    )\n\n    return (\n        * = DISABLER,\n    )\n}\n\n" +
+		"pipeline P(\n    out bool disable,\n)\n{\n    call DISABLER()\n\n    call P1() using (\n        disabled = DISABLER.disable,\n    )\n\n    call P2(\n        * = P1,\n    ) using (\n        disabled = DISABLER.disable,\n    )\n\n    return (\n        * = P1,\n    )\n}\n\ncall P()\n",
+}
+
 type scalingFamily struct {
 	name string
 	gen  func(n int) string
@@ -554,6 +564,10 @@ func init() {
 			fmt.Fprintf(&sb, "stage P(\n out B%d o,\n src comp \"a\",\n)\nstage C(\n in A%d i,\n src comp \"a\",\n)\n", n, n)
 			sb.WriteString("pipeline X(\n)\n{\n call P(\n )\n call C(\n  i = P.o,\n )\n return (\n )\n}\n")
 			add('s', sb.String(), fmt.Sprintf("struct-doubling:%d", n))
+		}
+		// fixed programs that once crashed the compiler or the call graph resolver
+		for i, text := range c08FixedPrograms {
+			add('s', text, fmt.Sprintf("fixed-program:%d", i))
 		}
 		var fams []famIdx
 		base := c.Pick(400, 4000)
